@@ -2,7 +2,7 @@
    pauli_products_map comes from QPG.conjtab (regenerated from /repo). *)
 From Coq Require Import ZArith NArith List Bool.
 From QP Require Import Cx Zw Apply Local Gates.
-From QPM Require Import Pauli CompBasis Grouping GF2 Operator OperatorExt Expect OperatorAdj SparseExport TransAmp LabelString LabelSort.
+From QPM Require Import Pauli CompBasis Grouping GF2 Operator OperatorExt Expect OperatorAdj SparseExport TransAmp LabelString LabelSort LabelSpaced.
 From QPM Require Intern.
 From QPG Require Import conjtab.
 Import ListNotations.
@@ -241,3 +241,9 @@ Theorem sorted_string_form_round_trips :
   exists r, LabelString.parse (str_of l) = Some r /\ Permutation.Permutation r l.
 Proof. exact string_form_parses_to_the_same_pairs. Qed.
 Print Assumptions sorted_string_form_round_trips.
+
+(* the second documented input form, "X 0 Y 1 Z 2" (white space between a letter and its index), parses to the same label *)
+Theorem spaced_string_form_parses_to_the_label :
+  forall l : list (N * sp), NoDup (map fst l) -> LabelString.parse (show_spaced l) = Some l.
+Proof. exact parse_show_spaced. Qed.
+Print Assumptions spaced_string_form_parses_to_the_label.
